@@ -123,8 +123,32 @@ def run_config(run, prop, name, consts, wd, spec, *, caching=False, vertex_cls=N
                                 "probe": r["probes"][len(r["probes"]) // 2]})
                     break
 
+    unl = {"n": 0, "bad": 0}
+    holder = {}
+
+    def unlink_sink(records):
+        """C09, last clause, on the REAL post-state of every executed unlink() (JudgeStruct, Prop C09)"""
+        recs = [r for r in records if r["c"]["op"] == "unlink"]
+        for j, r in enumerate(recs):
+            r["id"] = j + 1
+        unl["n"] += len(recs)
+        for v in ST.judge("C09", consts, recs, wd, f"{name}-unlink", shards=2):
+            r = recs[v["id"] - 1]
+            unl["bad"] += 1
+            run.violation(f"unlink-then-find:{'+'.join(sorted(v['fail']))}|destroy{r['c']['a'][2]}",
+                          f"after unlink{r['c']['a']} the real graph violates {'+'.join(sorted(v['fail']))}",
+                          {"kind": "query-unlink", "config": name, "consts": {k: (sorted(x) if isinstance(x, set) else x) for k, x in consts.items()},
+                           "caching": caching, "vertex_cls": vertex_cls, "path": holder.get("c", {}).get(W.key(r["pre"])),
+                           "call": r["c"], "observed": {"pre": r["pre"], "res": r["res"], "post": r["post"]}})
+        for r in recs:
+            run.count_class(f"unlink-then-find:destroy{r['c']['a'][2]},{'self' if r['c']['a'][0] == r['c']['a'][1] else 'pair'}")
+
+    want_records = prop == "C09" and "unlink" in (consts.get("OnlyOps") or {"unlink"})
     _, confirmed, st, _ = explore.explore(consts, init, index, index, caching=caching, probe=spec, vertex_cls=vertex_cls,
-                                          keep_records=False, probe_filter=probe_filter, probe_sink=probe_sink)
+                                          keep_records=want_records, sink=unlink_sink if want_records else None, confirmed_out=holder,
+                                          probe_filter=probe_filter, probe_sink=probe_sink)
+    if want_records:
+        st["unlink_calls_judged"] = unl["n"]
     t2 = time.time()
     st.update({"probes_failing": agg["bad"], "t_generate_s": round(t1 - t0, 1), "t_execute_and_judge_s": round(t2 - t1, 1),
                "t_judge_s": round(agg["judge_s"], 1), "vertex_cls": vertex_cls, "caching": caching})
@@ -149,9 +173,18 @@ def replay_query(prop, path, wd):
     for c in rp["path"] or []:
         w.apply(c)
     S = w.project()
+    if rp["kind"] == "query-unlink":
+        res = w.apply(rp["call"])
+        rec = {"id": 1, "pre": S, "c": rp["call"], "res": res, "post": w.project()}
+        print(json.dumps(rec)[:1500])
+        if ST.judge("C09", consts, [rec], wd, "replay", shards=1):
+            print(f"VIOLATION property={prop} replay={path}  # reproduced: the graph after unlink{rp['call']['a']} still joins the pair / lost other links")
+            return 1
+        print(f"replay of {path}: property {prop} holds on the current tree")
+        return 0
     if rp["kind"] == "query-deep":
         run = Run(prop, "quick", 0)
-        deep_stage(run, prop, wd, rp["n"])
+        deep_stage(run, prop, wd, rp["n"], rp.get("wide", 1300))
         if run.violations:
             print(f"VIOLATION property={prop} replay={path}  # reproduced: {run.violations[0]['what'][:200]}")
             return 1
@@ -181,63 +214,89 @@ def big_filter(minlinks, one_in):
     return f
 
 
-def deep_stage(run, prop, wd, n=450):
-    """structures far deeper than the small pools: a chain of n vertices with a side branch created after / before it,
-    and an undirected cycle; judged by the same operators (TLC with a large thread stack)"""
-    records = []
-    for shape in ("chain-then-branch", "branch-then-chain", "undirected-path"):
-        consts = dict(ST.BASE, NV=n + 2, InitBV=n + 2, NL=n + 1, Kinds={"D", "U"})
+def _deep_world(shape, n):
+    """-> (world, consts, universe members or (-1,))"""
+    if shape == "wide-tree":
+        # shallow but LARGE: a root, three hubs, n leaves spread over the hubs, walked inside a universe holding all of
+        # them (more members than the interpreter's recursion limit, depth 2)
+        nv = n + 4
+        consts = dict(ST.BASE, NV=nv, InitBV=nv, NL=nv - 1, Kinds={"D", "U"})
         w = W.World(consts, ST.base_state(consts), P.VERTEX_CLASSES["PlainVertex"])
-        if shape == "branch-then-chain":
-            w.apply({"op": "new", "k": "D", "a": [1, n + 2], "b": []})
-        if shape == "undirected-path":
-            for i in range(1, n + 2):
-                w.apply({"op": "new", "k": "U", "a": [i, i + 1], "b": []})
-        else:
-            for i in range(1, n + 1):
-                w.apply({"op": "new", "k": "D", "a": [i, i + 1], "b": []})
-        if shape == "chain-then-branch":
-            w.apply({"op": "new", "k": "D", "a": [1, n + 2], "b": []})
-        S = w.project()
-        cache = {}
-        probes = []
-        if prop == "C08":
-            attr = [0] * (n + 2)
-            attr[n - 20] = 1
-            attr[n + 1] = 1          # the far end of the chain's last link / the side branch
-            attr[5] = 2
-            for q in ("bfs", "dfsr", "dfsi"):
-                for val in (1, 2, 3):
-                    probes.append(P.exec_probe(w, P.desc(q, (1, val), attr=attr), cache))
-        else:
-            dirs = (0, 1) if shape == "undirected-path" else (0,)
-            for q in ("dftr", "dfti", "bft", "idftr", "idfti", "ibft"):
-                for d in dirs:
-                    probes.append(P.exec_probe(w, P.desc(q, (1, d, 2)), cache))
-        records.append({"id": len(records) + 1, "S": S, "probes": probes, "path": [], "shape": shape, "consts": consts})
-    jc = {k: records[0]["consts"][k] for k in ("NV", "NU", "NL", "NLaw")}
-    jc["Prop"] = prop
-    path = os.path.join(wd, f"deep-{prop}.json")
-    with open(path, "w") as f:
-        json.dump([{"id": r["id"], "S": r["S"], "probes": r["probes"]} for r in records], f)
-    res = tlc.run_tlc("JudgeQueries", tlc.make_cfg(jc, invariants=["Judged"]), wd, workers=1, tag=f"deep-{prop}",
-                      env={"EG_RECORDS": path}, heap="6g", stack="1000m", timeout=1800)
-    os.remove(path)
-    if res["distinct"] != len(records):
-        raise Machinery("deep-structure judge did not visit every record")
-    for v in res["json"]:
-        r = records[v["id"] - 1]
-        for j, e in zip(v["bad"], v["exp"]):
-            p = r["probes"][j - 1]
-            run.violation(f"deep:{r['shape']}:{p['q']}|Answer",
-                          f"{p['q']}{p['a']} on a {r['shape']} of {n} vertices answered {str(p['res'])[:120]} but the specification says {str(e)[:120]}",
-                          {"kind": "query-deep", "shape": r["shape"], "n": n, "probe": {k: p[k] for k in ("q", "a", "attr")}})
-    for r in records:
-        for p in r["probes"]:
-            run.count_class(f"deep:{r['shape']}:{p['q']}")
-            run.evaluations += 1
-    run.traces += len(records)
-    run.extra["deep_structures"] = {"vertices": n + 2, "shapes": [r["shape"] for r in records], "failing": len(res["json"])}
+        for hub in (2, 3, 4):
+            w.apply({"op": "new", "k": "D", "a": [1, hub], "b": []})
+        for i in range(5, nv + 1):
+            w.apply({"op": "new", "k": "D", "a": [2 + i % 3, i], "b": []})
+        return w, consts, tuple(range(1, nv + 1))
+    consts = dict(ST.BASE, NV=n + 2, InitBV=n + 2, NL=n + 1, Kinds={"D", "U"})
+    w = W.World(consts, ST.base_state(consts), P.VERTEX_CLASSES["PlainVertex"])
+    if shape == "branch-then-chain":
+        w.apply({"op": "new", "k": "D", "a": [1, n + 2], "b": []})
+    if shape == "undirected-path":
+        for i in range(1, n + 2):
+            w.apply({"op": "new", "k": "U", "a": [i, i + 1], "b": []})
+    else:
+        for i in range(1, n + 1):
+            w.apply({"op": "new", "k": "D", "a": [i, i + 1], "b": []})
+    if shape == "chain-then-branch":
+        w.apply({"op": "new", "k": "D", "a": [1, n + 2], "b": []})
+    return w, consts, (-1,)
+
+
+def deep_stage(run, prop, wd, n=450, wide=1300):
+    """structures far beyond the small pools: a chain of n vertices with a side branch created after / before it, an
+    undirected path, and a shallow tree of `wide` leaves inside a universe; judged by the same operators (TLC with a
+    large thread stack)"""
+    groups = []
+    for shapes, size in ((("chain-then-branch", "branch-then-chain", "undirected-path"), n), (("wide-tree",), wide)):
+        records = []
+        for shape in shapes:
+            w, consts, M = _deep_world(shape, size)
+            S = w.project()
+            nv = S["bv"]
+            cache = {}
+            probes = []
+            if prop == "C08":
+                attr = [0] * nv
+                attr[nv - 22] = 1
+                attr[nv - 1] = 1          # the far end of the chain's last link / the side branch / the last leaf
+                attr[5] = 2
+                for q in ("bfs", "dfsr", "dfsi"):
+                    for val in (1, 2, 3):
+                        probes.append(P.exec_probe(w, P.desc(q, (1, val), attr=attr, M=M), cache))
+            else:
+                dirs = (0, 1) if shape == "undirected-path" else (0,)
+                for q in ("dftr", "dfti", "bft", "idftr", "idfti", "ibft"):
+                    for d in dirs:
+                        probes.append(P.exec_probe(w, P.desc(q, (1, d, 2), M=M), cache))
+            records.append({"id": len(records) + 1, "S": S, "probes": probes, "path": [], "shape": shape, "consts": consts, "n": size})
+        groups.append(records)
+    failing = 0
+    for gi, records in enumerate(groups):
+        jc = {k: records[0]["consts"][k] for k in ("NV", "NU", "NL", "NLaw")}
+        jc["Prop"] = prop
+        path = os.path.join(wd, f"deep-{prop}-{gi}.json")
+        with open(path, "w") as f:
+            json.dump([{"id": r["id"], "S": r["S"], "probes": r["probes"]} for r in records], f)
+        res = tlc.run_tlc("JudgeQueries", tlc.make_cfg(jc, invariants=["Judged"]), wd, workers=1, tag=f"deep-{prop}-{gi}",
+                          env={"EG_RECORDS": path}, heap="6g", stack="1000m", timeout=1800)
+        os.remove(path)
+        if res["distinct"] != len(records):
+            raise Machinery("deep-structure judge did not visit every record")
+        failing += len(res["json"])
+        for v in res["json"]:
+            r = records[v["id"] - 1]
+            for j, e in zip(v["bad"], v["exp"]):
+                p = r["probes"][j - 1]
+                run.violation(f"deep:{r['shape']}:{p['q']}|Answer",
+                              f"{p['q']}{p['a']} on a {r['shape']} of {r['n']} vertices answered {str(p['res'])[:120]} but the specification says {str(e)[:120]}",
+                              {"kind": "query-deep", "shape": r["shape"], "n": n, "wide": wide, "probe": {k: p[k] for k in ("q", "a", "attr")}})
+        for r in records:
+            for p in r["probes"]:
+                run.count_class(f"deep:{r['shape']}:{p['q']}")
+                run.evaluations += 1
+        run.traces += len(records)
+    run.extra["deep_structures"] = {"vertices": [r["S"]["bv"] for g in groups for r in g], "shapes": [r["shape"] for g in groups for r in g],
+                                    "failing": failing}
 
 
 def nontrivial_probe_class(c):
